@@ -48,6 +48,7 @@ def run_config(ctx, config):
             G.check_spec(ctx, fn, config, U, G.QTY + fn, set(), [same], spec)
     amt = ws.amount_type(config)
     n_noref = n_single = 0
+    G.unit_identity(ctx, config, w)
     for q in w.qtypes:
         if q.kind not in ("noref", "single"):
             continue
